@@ -354,14 +354,39 @@ func (ex *Exec) frameCheck(st *State, fr *Frame, fc *FuncContract, env *Env) {
 
 func (ex *Exec) pathText(o *Object, p []PathEl) string {
 	var sb strings.Builder
+	t := o.T
 	for _, e := range p {
 		if e.Index != nil {
 			fmt.Fprintf(&sb, "[%s]", idxName(e.Index))
+			if t != nil {
+				switch u := t.Underlying().(type) {
+				case *types.Array:
+					t = u.Elem()
+				case *types.Slice:
+					t = u.Elem()
+				default:
+					t = nil
+				}
+			}
 		} else {
-			fmt.Fprintf(&sb, ".%d", e.Field)
+			if st, ok := underStruct(t); ok && e.Field < st.NumFields() {
+				fmt.Fprintf(&sb, ".%s", st.Field(e.Field).Name())
+				t = st.Field(e.Field).Type()
+			} else {
+				fmt.Fprintf(&sb, ".%d", e.Field)
+				t = nil
+			}
 		}
 	}
 	return sb.String()
+}
+
+func underStruct(t types.Type) (*types.Struct, bool) {
+	if t == nil {
+		return nil, false
+	}
+	st, ok := t.Underlying().(*types.Struct)
+	return st, ok
 }
 
 func diffValues(a, b Value, path []PathEl, out *[]diff) {
